@@ -43,7 +43,8 @@ pub struct NHistory {
     server_protocol: u64,
     server_addrs: Vec<SocketAddr>,
     sealed_seen: HashMap<(u8, Vec<u8>, u64), Vec<u8>>, // (direction, key, sequence) -> datagram
-    delivered_to_server: HashSet<Vec<u8>>,
+    delivered_to_server: HashSet<(SocketAddr, Vec<u8>)>,
+    token_seen_from: HashMap<u64, HashSet<SocketAddr>>, // token -> addresses its request was presented from
     delivered_to_client: HashMap<u64, HashSet<Vec<u8>>>,
 }
 
@@ -99,6 +100,7 @@ impl NHistory {
             server_addrs: vec![],
             sealed_seen: HashMap::new(),
             delivered_to_server: HashSet::new(),
+            token_seen_from: HashMap::new(),
             delivered_to_client: HashMap::new(),
         }
     }
@@ -218,7 +220,7 @@ impl NHistory {
         let connected_before = s.verif_clients().iter().any(|c| c.addr == from);
         let before = self.server_state();
         let now_secs = s.current_time().as_secs();
-        let replayed = self.delivered_to_server.contains(&data);
+        let replayed = self.delivered_to_server.contains(&(from, data.clone()));
         let is_request = data.first().map(|p| p & 15 == 0).unwrap_or(false);
         let op = l(vec![n(110u8), addr_tree(&from), b(&data)]);
         let obs = self.emit(&op);
@@ -226,7 +228,7 @@ impl NHistory {
             self.violate("C07", format!("NetcodeServer::process_packet panicked on a datagram of {} bytes from {}", data.len(), from));
             return;
         }
-        self.delivered_to_server.insert(data.clone());
+        self.delivered_to_server.insert((from, data.clone()));
         let after = self.server_state();
         let r = obs.as_l().map(|v| v.to_vec()).unwrap_or_default();
         let kind = r.first().and_then(|t| t.as_u64()).unwrap_or(0);
@@ -580,6 +582,11 @@ impl NHistory {
                 let is_request = orig.first().map(|p| p & 15 == 0).unwrap_or(false);
                 // a sealed datagram that was altered, or that comes from another address, is not authentic for the session it addresses
                 let inauthentic = !is_request && (!unmodified || !own_addr) && !self.out_c.values().any(|l| l.iter().any(|d| d.bytes == data));
+                if is_request {
+                    if let Some(t) = self.client_token.get(&k) {
+                        self.token_seen_from.entry(*t).or_default().insert(from);
+                    }
+                }
                 if unmodified && own_addr {
                     self.feat("genuine_to_server");
                 } else {
@@ -666,9 +673,10 @@ impl NHistory {
             let targets_server = s.addresses().contains(&c.server_addr()) || true;
             // the token must stay valid for the rounds, and the client must still have time before its own deadline
             let not_expired = s.current_time().as_secs() + 3 < tinfo.expire;
-            let token_unused_elsewhere = true;
+            let token_unused_elsewhere = self.client_token.get(&k).and_then(|t| self.token_seen_from.get(t)).map(|s| s.iter().all(|a| *a == addr)).unwrap_or(true);
             connecting && free && id_free && addr_free && pending_ok && targets_server && not_expired && tinfo.valid_for_server && token_unused_elsewhere
         };
+        let targets = self.world.clients.get(&k).map(|c| self.world.server.as_ref().map(|s| s.addresses().contains(&c.server_addr())).unwrap_or(false)).unwrap_or(false);
         let client_time = self.world.clients.get(&k).map(|c| c.current_time()).unwrap_or_default();
         let server_time = self.world.server.as_ref().map(|s| s.current_time()).unwrap_or_default();
         let clocks_aligned = client_time.as_secs().abs_diff(server_time.as_secs()) <= 1;
@@ -706,7 +714,6 @@ impl NHistory {
         }
         let client_connected = self.world.clients.get(&k).map(|c| c.is_connected()).unwrap_or(false);
         let server_has = self.world.server.as_ref().map(|s| s.clients_id().contains(&tinfo.id) && s.client_addr(tinfo.id) == Some(addr)).unwrap_or(false);
-        let targets = self.world.clients.get(&k).map(|c| self.world.server.as_ref().map(|s| s.addresses().contains(&c.server_addr())).unwrap_or(false)).unwrap_or(false);
         if pre && clocks_aligned && rounds >= 3 && targets {
             self.feat("good_rounds_with_preconditions");
             if !(client_connected && server_has) {
